@@ -17,9 +17,19 @@ U == Var("u")
 DefU(v) == Def("u", TRUE, "", IntL(v))
 \* the forms of a use of an Int-valued name: printing needs a member lookup (__str__) on the name, the other forms do not
 Use(e) == PrintS(e)
-UseForms == {"print", "typed-def", "untyped-def", "arg", "operand"}
+\* where the name is read: every position of an expression inside a statement - also the three operands of a range, a condition, an
+\* element, an interpolated expression, a unary operand
+UseForms == {"print", "typed-def", "untyped-def", "arg", "operand", "range-from", "range-to", "range-step", "condition", "while-condition", "element", "interpolated", "unary"}
 UseF(form, e) == CASE form = "print" -> PrintS(e) [] form = "typed-def" -> Def("r_use", TRUE, "Int", e) [] form = "untyped-def" -> Def("r_use", TRUE, "", e)
                    [] form = "arg" -> Expr(Call("takes_int", <<e>>)) [] form = "operand" -> Def("r_use", TRUE, "Int", Bin("+", e, IntL(1)))
+                   [] form = "range-from" -> For("q_use", Range(e, IntL(3), FALSE, Absent), <<PrintS(StrL("r"))>>)
+                   [] form = "range-to"   -> For("q_use", Range(IntL(0), e, TRUE, Absent), <<PrintS(StrL("r"))>>)
+                   [] form = "range-step" -> For("q_use", Range(IntL(0), IntL(3), FALSE, e), <<PrintS(StrL("r"))>>)
+                   [] form = "condition"  -> If(Bin(">", e, IntL(0)), <<PrintS(StrL("c"))>>, <<>>)
+                   [] form = "while-condition" -> While(Bin(">", e, IntL(5)), <<PrintS(StrL("w"))>>)
+                   [] form = "element"    -> Def("r_use", TRUE, "", ListL(<<IntL(1), e>>))
+                   [] form = "interpolated" -> PrintS(FStr(<<StrL("v "), e>>))
+                   [] form = "unary"      -> Def("r_use", TRUE, "Int", Neg(e))
 R01 == Range(IntL(0), IntL(1), FALSE, Absent)
 Raw(s) == [k |-> "raw", v |-> s]
 
